@@ -1113,7 +1113,8 @@ def verify_lemma(eng, lem):
     def prove(tag, env):
         for cl in lem.requires:
             eng.assume(eng.spec(cl.expr, env))
-        eng.probes.append(("lemma %s%s hypotheses satisfiable" % (lem.name, tag), list(eng.st.pc)))
+        if "[base" not in tag:      # a base case may legitimately be vacuous
+            eng.probes.append(("lemma %s%s hypotheses satisfiable" % (lem.name, tag), list(eng.st.glob) + list(eng.st.pc)))
         pc1 = list(eng.st.pc)
         for cl in lem.ensures:
             eng.st.pc = list(pc1)
